@@ -26,7 +26,11 @@ RULE = ("one case = one parsed config (treelib's generators with line bodies swa
         "- 11 patterns with named groups, type dicts of 0-4 keys incl. a key that is no group name and type None, defaults that equal "
         "a captured text, ops re_match_iter_typed / re_list_iter_typed, both recurse values (bucket gd-defect counts the cases where "
         "the first child does not match but a later one does); (st) edit states - parse (auto_commit on/off), one ConfigList.insert "
-        "at a boundary-biased index, optional commit, then the five ops on the objects of the last commit.")
+        "at a boundary-biased index, optional commit, then the five ops on the objects of the last commit. "
+        "Generator blind spots closed with harness/covreport.py: about 1 in 8 gd queries passes a groupdict= that is neither None nor a dict "
+        "(list / tuple of pairs, str, int, False, 0, [], set, a type), which both methods refuse with ValueError (model: gdDispatch); and half "
+        "of ALL cases leave the keyword arguments that sit at their documented default (group=1, result_type=str, default='', "
+        "untyped_default=False, recurse=True) out of the calls, so the defaults of the five signatures are observed, not only the bodies.")
 LEVEL_TEXT = ("Theorems (Lean 4, all trees, all regex oracles, all IPv4 parsers): re_match_iter_typed returns result_type(group) of the "
               "first matching line of [self] + children (recurse=False) / [self] + all_children (recurse=True), and the default "
               "(converted iff not untyped_default) exactly when no line of that order matches; re_match_typed is the one-line variant "
@@ -37,7 +41,7 @@ LEVEL_TEXT = ("Theorems (Lean 4, all trees, all regex oracles, all IPv4 parsers)
               "(order_is_descendants), and the four statements are restated for parsed configs in those terms (*_parsed). "
               "The model is tied to the real methods by differential runs on every check. Outside the property's quantifier, modelled as "
               "the code is and measured the same way: the groupdict= path (iterDict_recurse; the defective recurse=False branch and the "
-              "never-returning list variant as *_partial theorems) and the search_safe guard on Ccp.Edit states (stale_raises, "
+              "never-returning list variant as *_partial theorems; gdDispatch_spec: a groupdict that is neither None nor a dict is refused with ValueError) and the search_safe guard on Ccp.Edit states (stale_raises, "
               "stale_states, root_on_committed; the unguarded config-level method as root_unguarded_partial).")
 LEVEL_NOTE = ("Trusted: Lean kernel; axioms propext/Classical.choice/Quot.sound only; the correspondence harness. Python's re and IPv4Obj "
               "are parameters of the model (universally quantified in the theorems, supplied per request by calling re / IPv4Obj "
@@ -343,6 +347,15 @@ def literal_stream(maxlen):
 
 
 def cases(rng, tier):
+    """half of the cases leave the keyword arguments that sit at their documented default (group=1, result_type=str,
+    default='', untyped_default=False, recurse=True) out of the calls"""
+    orng = __import__("random").Random(rng.random())
+    for c in _cases(rng, tier):
+        c["omit"] = orng.random() < 0.5
+        yield c
+
+
+def _cases(rng, tier):
     T.selfcheck()
     if tier != "search":
         yield from literal_stream(4 if tier == "quick" else 5)
@@ -396,6 +409,17 @@ def enc_val(v):
     raise AssertionError("unexpected value %r" % (v,))
 
 
+DOC_DEFAULTS = {"group": 1, "result_type": str, "default": "", "untyped_default": False, "recurse": True}
+
+
+def call_kw(case, **full):
+    """the keyword arguments of one call; when the case says `omit`, those that sit at their documented default are
+    left out of the call, so the defaults of the signatures are observed too"""
+    if not case.get("omit"):
+        return full
+    return {k: v for k, v in full.items() if not (type(v) is type(DOC_DEFAULTS[k]) and v == DOC_DEFAULTS[k])}
+
+
 def _impl_plain(case):
     quiet_ccp()
     from ciscoconfparse2.ccp_util import IPv4Obj
@@ -409,7 +433,7 @@ def _impl_plain(case):
     out = []
     for q in case["queries"]:
         rt = tys[q["ty"]]
-        kw = dict(group=case["group"], result_type=rt, default=q["default"], untyped_default=bool(q["untyped"]))
+        kw = call_kw(case, group=case["group"], result_type=rt, default=q["default"], untyped_default=bool(q["untyped"]))
         try:
             if q["op"] == "root":
                 v = p.re_match_iter_typed(regex, **kw)
@@ -419,13 +443,13 @@ def _impl_plain(case):
             else:
                 o = objs[q["idx"]]
                 if q["op"] == "match":
-                    v = o.re_match(regex, group=case["group"], default=q["default"])
+                    v = o.re_match(regex, **call_kw(case, group=case["group"], default=q["default"]))
                 elif q["op"] == "typed":
                     v = o.re_match_typed(regex, **kw)
                 elif q["op"] == "iter":
-                    v = o.re_match_iter_typed(regex, recurse=bool(q["recurse"]), **kw)
+                    v = o.re_match_iter_typed(regex, **call_kw(case, recurse=bool(q["recurse"])), **kw)
                 elif q["op"] == "list":
-                    v = o.re_list_iter_typed(regex, group=case["group"], result_type=rt, recurse=bool(q["recurse"]))
+                    v = o.re_list_iter_typed(regex, **call_kw(case, group=case["group"], result_type=rt, recurse=bool(q["recurse"])))
                 else:
                     raise AssertionError(q["op"])
             out.append(enc_val(v))
@@ -743,6 +767,8 @@ def rand_gd_case(rng):
         idx = focus if (focus is not None and k < 3) else rng.randrange(max(1, len(lines)))
         d = rng.choice(caps) if (caps and rng.random() < 0.25) else rng.choice(DEFAULTS)
         qs.append({"idx": idx, "op": rng.choice(["diter", "diter", "diter", "dlist"]), "recurse": int(rng.random() < 0.5), "default": d})
+        if rng.random() < 0.12:                  # groupdict= neither None nor a dict: refused with ValueError
+            qs[-1].update(op=rng.choice(["biter", "blist"]), bad=rng.choice(BAD_GROUPDICTS))
     return mk_gd(rng.choice(T.SYNTAXES), rng.random() < 0.2, rng.choice(T.DELIM_SETS), lines, regex, keys, qs)
 
 
@@ -788,6 +814,15 @@ def rand_st_case(rng):
                  rng.random() < 0.3, regex, g, qs)
 
 
+BAD_GROUPDICTS = ["pairs", "tuple", "str", "int", "false", "zero", "empty-list", "set", "type"]
+
+
+def bad_groupdict(kind, td):
+    """a `groupdict=` that is neither None nor a dict"""
+    return {"pairs": list(td.items()), "tuple": tuple(td.items()), "str": "m", "int": 1, "false": False, "zero": 0,
+            "empty-list": [], "set": set(td), "type": dict}[kind or "pairs"]
+
+
 def _impl_gd(case):
     quiet_ccp()
     from ciscoconfparse2.ccp_util import IPv4Obj
@@ -806,12 +841,13 @@ def _impl_gd(case):
             continue
         o = objs[q["idx"]]
         try:
-            if q["op"] == "diter":
-                v = o.re_match_iter_typed(case["regex"], groupdict=dict(td), default=q["default"], recurse=bool(q["recurse"]))
+            gd = dict(td) if q["op"] in ("diter", "dlist") else bad_groupdict(q.get("bad"), td)
+            if q["op"] in ("diter", "biter"):
+                v = o.re_match_iter_typed(case["regex"], groupdict=gd, **call_kw(case, default=q["default"], recurse=bool(q["recurse"])))
                 assert list(v.keys()) == list(td.keys())
                 out.append("D" + ",".join(enc_val(x) for x in v.values()))
             else:
-                v = o.re_list_iter_typed(case["regex"], groupdict=dict(td), recurse=bool(q["recurse"]))
+                v = o.re_list_iter_typed(case["regex"], groupdict=gd, **call_kw(case, recurse=bool(q["recurse"])))
                 out.append("L" + ";".join("D" + ",".join(enc_val(x) for x in d.values()) for d in v))
         except AssertionError:
             raise
@@ -837,7 +873,7 @@ def _impl_st(case):
     out = []
     for q in case["queries"]:
         rt = tys[q["ty"]]
-        kw = dict(group=case["group"], result_type=rt, default=q["default"], untyped_default=bool(q["untyped"]))
+        kw = call_kw(case, group=case["group"], result_type=rt, default=q["default"], untyped_default=bool(q["untyped"]))
         try:
             if q["op"] == "root":
                 v = p.re_match_iter_typed(case["regex"], **kw)
@@ -847,13 +883,13 @@ def _impl_st(case):
             else:
                 o = objs[q["idx"]]
                 if q["op"] == "match":
-                    v = o.re_match(case["regex"], group=case["group"], default=q["default"])
+                    v = o.re_match(case["regex"], **call_kw(case, group=case["group"], default=q["default"]))
                 elif q["op"] == "typed":
                     v = o.re_match_typed(case["regex"], **kw)
                 elif q["op"] == "iter":
-                    v = o.re_match_iter_typed(case["regex"], recurse=bool(q["recurse"]), **kw)
+                    v = o.re_match_iter_typed(case["regex"], **call_kw(case, recurse=bool(q["recurse"])), **kw)
                 else:
-                    v = o.re_list_iter_typed(case["regex"], group=case["group"], result_type=rt, recurse=bool(q["recurse"]))
+                    v = o.re_list_iter_typed(case["regex"], **call_kw(case, group=case["group"], result_type=rt, recurse=bool(q["recurse"])))
             out.append(enc_val(v))
         except Exception as e:  # noqa: BLE001
             out.append("err:" + type(e).__name__)
